@@ -10,7 +10,9 @@ import (
 
 	"github.com/modernizing/coca/pkg/application/analysis/javaapp"
 	"github.com/modernizing/coca/pkg/application/api"
+	"github.com/modernizing/coca/pkg/adapter/cocafile"
 	"github.com/modernizing/coca/pkg/application/bs"
+	"github.com/modernizing/coca/pkg/application/tbs"
 	"github.com/modernizing/coca/pkg/domain/bs_domain"
 	"github.com/modernizing/coca/pkg/domain/core_domain"
 )
@@ -135,5 +137,24 @@ func init() {
 			}
 		}
 		return L(L(list...), groups)
+	})
+}
+
+func init() {
+	// ((relpath text) ...) -> test smells of `coca tbs -p DIR`
+	register("java.tbs", func(in Sx) Sx {
+		dir := writeTree(in)
+		defer os.RemoveAll(dir)
+		files := cocafile.GetJavaTestFiles(dir)
+		identApp := javaapp.NewJavaIdentifierApp()
+		identifiers := identApp.AnalysisFiles(files)
+		identMap := core_domain.BuildIdentifierMap(identifiers)
+		fullApp := javaapp.NewJavaFullApp()
+		classNodes := fullApp.AnalysisFiles(identifiers, files)
+		out := []Sx{}
+		for _, r := range tbs.NewTbsApp().AnalysisPath(classNodes, identMap) {
+			out = append(out, L(A(r.Type), A(strings.TrimPrefix(strings.TrimPrefix(r.FileName, dir), "/")), N(r.Line)))
+		}
+		return L(out...)
 	})
 }
